@@ -102,9 +102,11 @@ func init() {
 		m["nd:ndString"] = atom(16)
 		m["nd:ndBech32"] = atom(45)
 		m["nd:ndHexVal"] = func(ex *Exec, fr *frame, cc *ssa.CallCommon, a []Value) Value {
-			// id = 2*value + spelling bit; value < 16^62 (the 64-digit rendering starts with a zero)
-			t := ex.ndInt(symName(a[0]), big.NewInt(0), new(big.Int).Lsh(big.NewInt(1), 249))
-			return VStr{Atom: &t, HexNum: true}
+			// id = 2*value + spelling bit; value < 16^68: the text is "0" + the value zero-padded to 64 digits (up to 68
+			// digits from 2^256 on: the property speaks of values of any length and magnitude), "00" more in front in
+			// the alternative spelling
+			t := ex.ndInt(symName(a[0]), big.NewInt(0), new(big.Int).Sub(new(big.Int).Lsh(big.NewInt(1), 4*68+1), big.NewInt(1)))
+			return VStr{Atom: &t, HexNum: true, HexLead: 1}
 		}
 		m["nd:ndBytesN"] = func(ex *Exec, fr *frame, cc *ssa.CallCommon, a []Value) Value {
 			t := ex.ndInt(symName(a[0]), big.NewInt(0), big.NewInt(1<<40))
